@@ -114,6 +114,12 @@ register("C07", "exploration",
  "bounded-exhaustive interleaving enumeration over a harness-owned scheduler, linearizability-style oracle over writer results and final row",
  "DESIGN.md section 3 C07")
 
+register("C11", "exploration",
+ "Seven race scenarios (2-3 children sharing a mutex key / a deferred-choice group / both, with and without the retention sweep as an extra thread) under ALL harness-owned schedules with a bounded number of pre-emptions plus random deeper ones; generated workflows with mutex / choice groups (including mutex holders that suspend at a gate inside the critical section) under generated delivery schedules with the sweep and the releasing signal injected at random steps; and a sweep of the releasing signal over every position of a fixed suspended-holder spec. Oracle over the audit trail: never two RUNNING per mutex key, every mutex sibling runs exactly once, exactly one choice winner, losers CANCELED and never executed, no claim of a live execution deleted.",
+ "Same scheduler assumptions as C04; waiters' delayed retries fast-forwarded (bounded liveness); choice members are sibling alternatives.",
+ "bounded-exhaustive interleaving enumeration + Hypothesis specs x schedules, invariant over the durable audit trail",
+ "DESIGN.md section 3 C11")
+
 NOT_APPLICABLE = {}
 
 def main():
